@@ -233,9 +233,35 @@ def execute_plain(op: dict, scratch: str) -> tuple[tuple, object]:
         try:
             toks = list(generate_tokens(op["text"]))
         except BaseException as e:  # noqa: BLE001
-            return kernel.canon_exception(e), e
+            return normalise_outcome(kernel.canon_exception(e)), e
+        return canon_tokens(toks), toks
+    if kind == "tokens_iter":
+        # the same tokens requested through a caller-supplied readline (an iterator's __next__, EOF by StopIteration)
+        lines = op["text"].split("\n")
+        it = iter([ln + "\n" for ln in lines[:-1]] + ([lines[-1]] if lines[-1] else []))
+        try:
+            toks = list(generate_tokens(it.__next__))
+        except BaseException as e:  # noqa: BLE001
+            return normalise_outcome(kernel.canon_exception(e)), e
         return canon_tokens(toks), toks
     raise kernel.HarnessError(f"unknown op {kind}")
+
+
+def execute_flood(op: dict) -> tuple:
+    """Many distinct, never-seen-before texts in a row (their own outcomes are not judged): whatever bounded cache,
+    counter or table the implementation keeps gets pushed past its capacity before the judged ops that follow."""
+    from peg_parser.parser import XonshParser
+
+    n_ok = n_err = 0
+    tag = op["tag"]
+    for i in range(op["n"]):
+        text = f"v{tag}_{i} = {i}\n" if i % 7 else f"v{tag}_{i} = ({i},\n {i} {i})\n"
+        try:
+            XonshParser.parse_string(text, mode="exec" if i % 5 else "eval")
+            n_ok += 1
+        except (SyntaxError, Exception):  # noqa: BLE001
+            n_err += 1
+    return ("flood", n_ok, n_err)
 
 
 def execute_cancel(op: dict) -> tuple:
@@ -679,6 +705,17 @@ class ScheduleSim:
             return rec
         self.opstep[k] = 0
         self.budget_raised[k] = False
+        if op["op"] == "flood":
+            self.inop[k] = True
+            try:
+                rec["outcome"] = execute_flood(op)
+            except StepBudget as e:
+                rec["outcome"] = ("budget", str(e))
+            finally:
+                self.inop[k] = False
+            rec["steps"] = self.opstep[k]
+            self.log.add(k, "return", (idx, rec["outcome"]))
+            return rec
         if fault and fault["kind"] == "cancel":
             self.inop[k] = True
             try:
@@ -858,6 +895,8 @@ def run_history_task(task: dict) -> dict:
                     rec["outcome"] = ("mutated",)
                 else:
                     rec["outcome"] = ("mutate-skipped",)
+            elif op["op"] == "flood":
+                rec["outcome"] = execute_flood(op)
             elif fault and fault["kind"] == "cancel":
                 rec["outcome"] = execute_cancel(op)
             elif fault and fault["kind"] == "recursion_limit":
